@@ -19,7 +19,7 @@ import copy, math, os, random
 import numpy as np
 from ..core import Check, MachineryFailure
 from .. import tlc, tracecheck
-from ..impl_batch import (NeuronFix, SynapseFix, ConnectionFix, LayerFix, SYNAPSES, run_pair, torch)
+from ..impl_batch import (NeuronFix, SynapseFix, ConnectionFix, LayerFix, SYNAPSES, run_pair, BatchedRaised, torch)
 from ..impl_neuron import NeuronProbe, CLASSES, ADAPTIVE, ADAPTIVE_THRESH, RECIPES
 from .neuron_common import (TLCJobs, validate_neuron_traces, draw_inputs, OFF, SCALE)
 
@@ -47,7 +47,12 @@ class NotExact(Exception):
     pass
 
 
+MISSING = -(1 << 29)     # the batched tensor has no row for this sample (batch dimension not B)
+
+
 def _ints(t: torch.Tensor, i: int):
+    if t.shape[0] <= i:
+        return [MISSING]
     a = t[i].detach().to(torch.float64).reshape(-1).numpy()
     if not np.all(np.isfinite(a)) or np.any(np.abs(a) > 2 ** 30):
         raise NotExact("discrete field out of range")
@@ -55,6 +60,8 @@ def _ints(t: torch.Tensor, i: int):
 
 
 def _real(tb, ts, i):
+    if any(t.shape[0] <= i for t in tb):
+        tb = [t if t.shape[0] > i else torch.full((i + 1,) + tuple(t.shape[1:]), float("inf")) for t in tb]
     xb = np.concatenate([t[i].detach().to(torch.float64).reshape(-1).numpy() for t in tb]) if tb else np.zeros(0)
     xs = np.concatenate([t[0].detach().to(torch.float64).reshape(-1).numpy() for t in ts]) if ts else np.zeros(0)
     return xb, xs
@@ -83,9 +90,9 @@ def _quant(xb, xs, exact: bool):
 
 def encode(fix, log, exact: bool):
     """-> BatchTrace trace (raises NotExact when the dyadic recipe does not stay on the grid)"""
-    B = fix.B
     evs = []
     for rec in log:
+        B = rec["B"]
         samples = []
         for i in range(B):
             stages = []
@@ -114,8 +121,8 @@ def encode(fix, log, exact: bool):
                 u = RTOL * np.maximum(np.abs(b), sum(np.abs(p) for p in ps)) + ATOL
                 acc = {"b": [int(v) for v in np.rint(b / u)], "p": [[int(v) for v in np.rint(p / u)] for p in ps],
                        "tol": 2 + B, "on": True}
-        evs.append({"s": samples, "acc": acc})
-    return {"hdr": {"B": B, "tolq": 0 if exact else 2, "waive": [], "kind": fix.kind, "mode": "exact" if exact else "tol",
+        evs.append({"s": samples, "acc": acc, "B": B, "resize": bool(rec["resize"])})
+    return {"hdr": {"B": log[0]["B"], "tolq": 0 if exact else 2, "waive": [], "kind": fix.kind, "mode": "exact" if exact else "tol",
                     "desc": _jsonable(fix.desc)}, "ev": evs}
 
 
@@ -148,6 +155,13 @@ def fixtures(rng: random.Random, tier: str):
         for mode in ("exact", "tol"):
             for cls in (["LIF", "GLIF1", "ALIF", "GLIF2"] if mode == "exact" else list(CLASSES)):
                 out.append(lambda m=mode, c=cls: NeuronFix(rng, rng.randint(2, 5), m, c))
+                # the batch grown / shrunk mid-run through the public `batchsz` setter
+                out.append(lambda m=mode, c=cls: NeuronFix(rng, rng.randint(2, 4), m, c, resize="grow"))
+                out.append(lambda m=mode, c=cls: NeuronFix(rng, rng.randint(3, 5), m, c, resize="shrink"))
+                if cls in ADAPTIVE:
+                    # explicit adapt = False / None / True in train and eval mode
+                    for var in NeuronFix.VARIANTS[1:]:
+                        out.append(lambda m=mode, c=cls, v=var: NeuronFix(rng, rng.randint(2, 5), m, c, variant=v))
             for s in SYNAPSES:
                 out.append(lambda m=mode, s=s: SynapseFix(rng, rng.randint(2, 5), m, s))
             for c in ("LinearDense", "LinearDirect", "LinearLateral", "Conv2D"):
@@ -169,7 +183,16 @@ def record_pairs(chk: Check, rng, tier):
     steps = 12 if tier == "quick" else 16
     for mk in fixtures(rng, tier):
         fix = mk()
-        log, _, _ = run_pair(fix, steps)
+        try:
+            log, _, _ = run_pair(fix, steps)
+        except BatchedRaised as e:
+            # the B single instances ran the step; only the batched instance raised
+            sig = {"clause": "BatchedRaises", "site": "trace:batch-pair", "kind": fix.kind, "mode": fix.mode,
+                   "raised": type(e.exc).__name__}
+            sig.update({k: v for k, v in _jsonable(fix.desc).items()
+                        if k in ("cls", "synapse", "connection", "layer", "trainer", "delayed")})
+            chk.violation(sig, {"desc": _jsonable(fix.desc), "B": fix.B, "step": e.step, "error": str(e)})
+            continue
         exact = fix.mode == "exact"
         try:
             tr = encode(fix, log, exact)
@@ -244,6 +267,30 @@ def validate_pairs(chk: Check, traces, site, report=True, shards=6):
             k = f"{t['hdr']['kind']}/{t['hdr']['mode']}"
             kinds[k] = kinds.get(k, 0) + 1
         chk.extra["pair_traces"] = kinds
+        # which neuron variants (module mode, adapt argument, batch resized through the setter) were validated
+        var = {}
+        for t in traces:
+            d = t["hdr"]["desc"]
+            if t["hdr"]["kind"] == "neuron":
+                rs = "none" if d.get("resize_to") in (None, "None") else ("grow" if int(d["resize_to"]) > t["hdr"]["B"] else "shrink")
+                k = f"{d['cls']}|{d['module_mode']}|adapt={d['adapt']}|resize={rs}"
+                var[k] = var.get(k, 0) + 1
+        chk.extra["neuron_variants"] = var
+        if site != "canary":
+            need = [f"{c}|eval|adapt=False|resize={r}" for c in CLASSES for r in ("none", "grow", "shrink")]
+            need += [f"{c}|{m}|adapt={a}|resize=none" for c in ADAPTIVE
+                     for m, a in (("eval", "None"), ("train", "False"), ("coupled-same", "True"), ("coupled-same", "None"))]
+            need += ["layer:RecurrentSerial:delayed", "connection:LinearLateral:delayed"]
+            have = set(var)
+            for t in traces:
+                d = t["hdr"]["desc"]
+                if d.get("layer") == "RecurrentSerial" and d.get("delayed") and t["hdr"]["B"] > 1:
+                    have.add("layer:RecurrentSerial:delayed")
+                if d.get("connection") == "LinearLateral" and d.get("delayed") and t["hdr"]["B"] > 1:
+                    have.add("connection:LinearLateral:delayed")
+            missing = [k for k in need if k not in have]
+            if missing and not chk.violations:
+                raise MachineryFailure(f"batched-vs-single drivers did not exercise: {missing}")
         idle = [f"{t['hdr']['kind']}/{t['hdr']['mode']}/{t['hdr']['desc']}" for t in traces if not t["hdr"].get("active", 1)]
         chk.extra["pair_traces_without_activity"] = len(idle)
         if len(idle) > len(traces) // 5:
